@@ -1,10 +1,234 @@
+import PprofVerif.Lemmas.FilterName
+import PprofVerif.Lemmas.FilterCorollaries
+import PprofVerif.Lemmas.FilterShowFrom
 import PprofVerif.Model.TagFilter
-import PprofVerif.Spec.Filter
-/-! C06 — property theorems (under construction). -/
+/-!
+# C06 — Sample filters keep exactly the documented samples, values untouched
+
+Property theorems only (helper lemmas: `Lemmas/Filter*.lean`).  They are about the executable
+model `Model/Filter.lean` of profile/filter.go (tied to the real code on every run by the
+correspondence check) and the frame-level rule `Spec/Filter.lean`:
+
+* a sample's stack is its list of *frames*, leaf first (`FilterSpec.frames`): one per `Line`,
+  one for a location without line information;
+* a frame *matches* R when its function name or file name matches or the binary of its
+  location matches (`FilterSpec.frameMatches`); regular expressions are arbitrary predicates
+  `Rx = Str → Bool`, so every theorem holds for all expressions;
+* a *view* of a sample is (values, labels, numeric labels, units, frames).
+
+`p.Valid` is `CheckValid` + reference closure (unique ids, ids resolve, every line has a function).
+-/
 namespace PV.Props.C06
 open PV PV.Filter PV.FilterSpec
 
-theorem placeholder_filter_none (p : Profile) :
-    (filterSamplesByName p none none none none).profile = p := rfl
+/-- **The name filters compute the frame-level rule** (all 16 combinations of
+focus/ignore/hide/show, all expressions, all valid profiles): the views of the filtered
+profile are exactly `nameSpec`: the samples with a frame matching focus and none matching ignore,
+each reduced to its frames that hide does not match and show matches, dropped iff none is left. -/
+theorem name_filter_rule (p : Profile) (hv : p.Valid) (fo ig hi sh : Option Rx) :
+    (filterSamplesByName p fo ig hi sh).profile.samples.map
+        (view (filterSamplesByName p fo ig hi sh).profile) = nameSpec p fo ig hi sh :=
+  name_views_eq_spec p (wf_of_valid hv) fo ig hi sh
+
+/-- focus=R keeps precisely the samples having at least one frame that matches R; the kept
+samples and every table of the profile are untouched. -/
+theorem focus_keeps_exactly (p : Profile) (hv : p.Valid) (R : Rx) :
+    (filterSamplesByName p (some R) none none none).profile =
+      { p with samples := p.samples.filter (fun s => (frames p s).any (frameMatches p R)) } := by
+  rw [filter_noHideShow p (wf_of_valid hv) (some R) none (by simp)]
+  congr 1
+  apply List.filter_congr
+  intro s _
+  simp [nameKeeps, hasMatch]
+
+/-- ignore=R drops precisely the samples having at least one frame that matches R (a sample
+without frames is kept); everything else is untouched. -/
+theorem ignore_drops_exactly (p : Profile) (hv : p.Valid) (R : Rx) :
+    (filterSamplesByName p none (some R) none none).profile =
+      { p with samples := p.samples.filter (fun s => !(frames p s).any (frameMatches p R)) } := by
+  rw [filter_noHideShow p (wf_of_valid hv) none (some R) (by simp)]
+  congr 1
+
+/-- focus=R and ignore=R partition the profile: their results together are a permutation of
+the unfiltered samples (as views), and their totals add up to the unfiltered total, per column. -/
+theorem focus_ignore_partition (p : Profile) (hv : p.Valid) (R : Rx) :
+    let A := (filterSamplesByName p (some R) none none none).profile
+    let B := (filterSamplesByName p none (some R) none none).profile
+    (A.samples.map (view A) ++ B.samples.map (view B)).Perm (p.samples.map (view p)) ∧
+    ∀ i, total i (A.samples.map (view A)) + total i (B.samples.map (view B)) =
+         total i (p.samples.map (view p)) := by
+  intro A B
+  have hA : A = { p with samples := p.samples.filter (fun s => (frames p s).any (frameMatches p R)) } :=
+    focus_keeps_exactly p hv R
+  have hB : B = { p with samples := p.samples.filter (fun s => !(frames p s).any (frameMatches p R)) } :=
+    ignore_drops_exactly p hv R
+  have vA : A.samples.map (view A) =
+      (p.samples.filter (fun s => (frames p s).any (frameMatches p R))).map (view p) := by rw [hA]; rfl
+  have vB : B.samples.map (view B) =
+      (p.samples.filter (fun s => !(frames p s).any (frameMatches p R))).map (view p) := by rw [hB]; rfl
+  rw [vA, vB]
+  constructor
+  · rw [← List.map_append]
+    exact (List.filter_append_perm _ _).map _
+  · intro i
+    exact total_filter_add i _ (view p) p.samples
+
+/-- hide=R removes only the frames it names: every sample of the result is an input sample that
+passed focus/ignore, with untouched values and labels, showing exactly its frames that do not
+match R; and such a sample disappears only when no frame is left. -/
+theorem hide_removes_only (p : Profile) (hv : p.Valid) (fo ig : Option Rx) (R : Rx) :
+    let r := (filterSamplesByName p fo ig (some R) none).profile
+    (∀ v ∈ r.samples.map (view r), ∃ s ∈ p.samples, nameKeeps p fo ig s = true ∧
+        v = specView s ((frames p s).filter (fun fr => !frameMatches p R fr))) ∧
+    (∀ s ∈ p.samples, nameKeeps p fo ig s = true →
+        (frames p s).filter (fun fr => !frameMatches p R fr) ≠ [] →
+        specView s ((frames p s).filter (fun fr => !frameMatches p R fr)) ∈ r.samples.map (view r)) := by
+  intro r
+  have h : r.samples.map (view r) = nameSpec p fo ig (some R) none := name_filter_rule p hv fo ig (some R) none
+  rw [h]
+  have hvis : visible p (some R) none = fun fr => !frameMatches p R fr := by
+    funext fr; simp [visible]
+  have hc : (fo.isNone && ig.isNone && (some R).isNone && (none : Option Rx).isNone) = false := by simp
+  simp only [nameSpec, hc, Bool.false_eq_true, ↓reduceIte, List.mem_filterMap, nameSpecSample, hvis]
+  constructor
+  · rintro v ⟨s, hs, hvs⟩
+    refine ⟨s, hs, ?_⟩
+    split at hvs
+    · rename_i hk
+      refine ⟨hk, ?_⟩
+      split at hvs
+      · rename_i he
+        split at hvs
+        · simp only [Option.map_some, Option.some.injEq] at hvs
+          rw [← hvs, List.isEmpty_iff.mp he]
+        · simp at hvs
+      · simp only [Option.map_some, Option.some.injEq] at hvs
+        exact hvs.symm
+    · simp at hvs
+  · intro s hs hk hne
+    refine ⟨s, hs, ?_⟩
+    have he : ((frames p s).filter (fun fr => !frameMatches p R fr)).isEmpty = false := by
+      cases hx : (frames p s).filter (fun fr => !frameMatches p R fr) with
+      | nil => exact absurd hx hne
+      | cons _ _ => rfl
+    simp [hk, he]
+
+/-- show=R keeps only the frames it names: every sample of the result is an input sample that
+passed focus/ignore, with untouched values and labels, showing exactly its frames that match R;
+and such a sample disappears only when no frame is left. -/
+theorem show_keeps_only (p : Profile) (hv : p.Valid) (fo ig : Option Rx) (R : Rx) :
+    let r := (filterSamplesByName p fo ig none (some R)).profile
+    (∀ v ∈ r.samples.map (view r), ∃ s ∈ p.samples, nameKeeps p fo ig s = true ∧
+        v = specView s ((frames p s).filter (frameMatches p R))) ∧
+    (∀ s ∈ p.samples, nameKeeps p fo ig s = true →
+        (frames p s).filter (frameMatches p R) ≠ [] →
+        specView s ((frames p s).filter (frameMatches p R)) ∈ r.samples.map (view r)) := by
+  intro r
+  have h : r.samples.map (view r) = nameSpec p fo ig none (some R) := name_filter_rule p hv fo ig none (some R)
+  rw [h]
+  have hvis : visible p none (some R) = frameMatches p R := by
+    funext fr; simp [visible]
+  have hc : (fo.isNone && ig.isNone && (none : Option Rx).isNone && (some R).isNone) = false := by simp
+  simp only [nameSpec, hc, Bool.false_eq_true, ↓reduceIte, List.mem_filterMap, nameSpecSample, hvis]
+  constructor
+  · rintro v ⟨s, hs, hvs⟩
+    refine ⟨s, hs, ?_⟩
+    split at hvs
+    · rename_i hk
+      refine ⟨hk, ?_⟩
+      split at hvs
+      · rename_i he
+        split at hvs
+        · simp only [Option.map_some, Option.some.injEq] at hvs
+          rw [← hvs, List.isEmpty_iff.mp he]
+        · simp at hvs
+      · simp only [Option.map_some, Option.some.injEq] at hvs
+        exact hvs.symm
+    · simp at hvs
+  · intro s hs hk hne
+    refine ⟨s, hs, ?_⟩
+    have he : ((frames p s).filter (frameMatches p R)).isEmpty = false := by
+      cases hx : (frames p s).filter (frameMatches p R) with
+      | nil => exact absurd hx hne
+      | cons _ _ => rfl
+    simp [hk, he]
+
+/-- Kept samples retain their values, labels and relative frame order, and the samples keep
+their relative order: the result (as views) is matched one-to-one, in order, by a sub-list of the
+input samples with the same values/labels/units, whose frames contain the result's frames as a
+sub-list. -/
+theorem filters_preserve_values_labels_order (p : Profile) (hv : p.Valid) (fo ig hi sh : Option Rx) :
+    let r := (filterSamplesByName p fo ig hi sh).profile
+    ∃ os : List Sample, os.Sublist p.samples ∧
+      List.Forall₂ (fun v s => v.values = s.values ∧ v.label = s.label ∧ v.numLabel = s.numLabel ∧
+          v.numUnit = s.numUnit ∧ v.frames.Sublist (frames p s))
+        (r.samples.map (view r)) os := by
+  intro r
+  have h : r.samples.map (view r) = nameSpec p fo ig hi sh := name_filter_rule p hv fo ig hi sh
+  rw [h]
+  obtain ⟨os, hsub, hfa⟩ := nameSpec_preserves p fo ig hi sh
+  refine ⟨os, hsub, ?_⟩
+  exact hfa.imp (fun {v s} hvs => ⟨hvs.1.1, hvs.1.2.1, hvs.1.2.2.1, hvs.1.2.2.2, hvs.2⟩)
+
+/- FULL STATEMENT (false of the code, see `showFrom_spec_fails`):
+     theorem showFrom_spec (p) (hv : p.Valid) (R : Rx) :
+       (showFrom p (some R)).1.samples.map (view (showFrom p (some R)).1) = showFromSpec p (some R)
+   i.e. every sample keeps its frames from the leaf up to and including its root-most frame matching
+   R and disappears when none matches.  The code trims, globally, every location that has a matching
+   line to end at its root-most matching line, also in samples where that location lies on the leaf
+   side of the sample's highest match (finding C06/show_from/inlined-location-below-highest-match).
+   Proved below under the hypothesis that excludes exactly that trimming. -/
+
+/-- show_from=R under `ShowFromWhole` (no location is cut: its binary matches R, or none of its
+lines does, or its root-most line does): the result is the frame-level rule. -/
+theorem showFrom_spec_partial (p : Profile) (R : Rx)
+    (h : ∀ l ∈ p.locations, ShowFromWhole p R l) :
+    (showFrom p (some R)).1.samples.map (view (showFrom p (some R)).1) = showFromSpec p (some R) :=
+  showFrom_views_eq_spec p R h
+
+/-- no show_from expression: nothing changes. -/
+theorem showFrom_none_id (p : Profile) : showFrom p none = (p, false) := rfl
+
+/-- The full show_from statement fails on the model (as on the code): with show_from=`^s` the
+frame `fb`, which lies below the highest match `sb` of the second location, is lost. -/
+theorem showFrom_spec_fails :
+    witnessShowFrom.Valid ∧
+    (showFrom witnessShowFrom (some startsWithS)).1.samples.map
+        (view (showFrom witnessShowFrom (some startsWithS)).1) ≠
+      showFromSpec witnessShowFrom (some startsWithS) := by
+  decide
+
+/-- tagfocus / tagignore on compiled label predicates: exactly the samples that satisfy focus
+and not ignore stay, in order and untouched; the flags report whether anything matched. -/
+theorem tagfilter_spec (p : Profile) (fo ig : Option TagMatch) :
+    filterSamplesByTag p fo ig =
+      ({ p with samples := p.samples.filter (fun s => tagFocused fo s && !tagIgnored ig s) },
+       p.samples.any (tagFocused fo), p.samples.any (tagIgnored ig)) := by
+  simp [filterSamplesByTag, filterByTagLoop_eq]
+
+/-- tagshow / taghide remove only the labels they describe: a (string or numeric) label stays
+iff its key matches tagshow (when given) and not taghide (when given); samples, values, frames,
+units and the order of labels are untouched. -/
+theorem tagshow_taghide_spec (p : Profile) (sh hi : Option Rx) :
+    let r := (filterTagsByName p sh hi).1
+    r.samples.map (view r) = p.samples.map (tagsSpecView p sh hi) := by
+  intro r
+  simp only [r, filterTagsByName, List.map_map]
+  apply List.map_congr_left
+  intro s _
+  have hk : ∀ k, (!tagRemove sh hi k) = keepsKey sh hi k := by
+    intro k; cases sh <;> cases hi <;> simp [tagRemove, keepsKey]
+  simp only [Function.comp, view, tagsSpecView, filterTagsSample, hk]
+  rfl
+
+-- non-vacuity: the hypotheses are satisfiable by non-trivial values
+example : witnessShowFrom.Valid := by decide
+example : ∀ l ∈ witnessShowFrom.locations, ShowFromWhole witnessShowFrom (fun s => s == [104, 97]) l := by
+  intro l hl
+  simp only [witnessShowFrom, List.mem_cons, List.not_mem_nil, or_false] at hl
+  rcases hl with rfl | rfl
+  · right; left; decide
+  · right; right; exact ⟨⟨5, 12, 0⟩, by decide, by decide⟩
+example : (frames witnessShowFrom ⟨[1, 2], [3], [], [], []⟩).length = 6 := by decide
 
 end PV.Props.C06
